@@ -22,6 +22,8 @@ pub mod io {
         pub fn from_raw_os_error(code: i32) -> (r: Error) ensures r.os_code() == Some(code) { unimplemented!() }
         #[verifier::external_body]
         pub fn other(msg: String) -> (r: Error) ensures r.os_code() is None, r.skind() == ErrorKind::Other { unimplemented!() }
+        #[verifier::external_body]
+        pub fn other_str(msg: &str) -> (r: Error) ensures r.os_code() is None, r.skind() == ErrorKind::Other { unimplemented!() }
     }
 }
 
